@@ -555,7 +555,9 @@ def run_unit(name, workdir, rlimit=None, seed=None, twins=True):
     for e in verr:
         hit_cands = []
         for sp in e["spans"]:
-            for ln in range(sp["line"], sp["line_end"] + 1):
+            # a span covering a whole body ("at the end of the function body") must not pick up the labels inside it
+            last = sp["line_end"] if sp["line_end"] - sp["line"] <= 3 else sp["line"]
+            for ln in range(sp["line"], last + 1):
                 if ln in label_lines:
                     hit_cands.append(label_lines[ln])
         prim = [sp for sp in e["spans"] if sp["primary"]]
